@@ -260,10 +260,16 @@ func metaEdits() []func(g *vkit.Rand) edit {
 			return edit{"metadata.generation(client-sent)", "client-generation", func(o runtime.Object) { acc(o).SetGeneration(gen) }}
 		},
 		func(g *vkit.Rand) edit {
-			mode := g.Intn(3)
+			mode := g.Intn(6)
 			return edit{"metadata.other", "other-metadata", func(o runtime.Object) {
 				a := acc(o)
 				switch mode {
+				case 3: // system fields a client may send back changed; the API path puts them right or ignores them
+					a.SetCreationTimestamp(metav1.NewTime(time.Unix(1700000000, 0)))
+				case 4:
+					a.SetSelfLink("/apis/proxy.kubegateway.io/v1alpha1/upstreamclusters/elsewhere")
+				case 5:
+					a.SetGenerateName("c20-")
 				case 0:
 					a.SetClusterName("elsewhere")
 				case 1:
@@ -726,11 +732,18 @@ func judge(op opKind, stored, asked, submitted runtime.Object) (out outcome) {
 		if !mapsSemEq(am.GetLabels(), sm.GetLabels()) {
 			return outcome{Class: "labels-changed", Detail: fmt.Sprintf("labels stored %v, after the status update %v", sm.GetLabels(), am.GetLabels()), After: submitted}
 		}
-		// the stored spec cannot change on this path (just checked); if the annotations do not change either, the
-		// generation must stay. Status updates that also send different annotations are not judged (the statement does
-		// not say whether the generation clause extends to the status path) — counted by the caller.
-		if mapsSemEq(sm.GetAnnotations(), acc(asked).GetAnnotations()) && am.GetGeneration() != sm.GetGeneration() {
-			return outcome{Class: "generation-changed", Detail: fmt.Sprintf("generation %d -> %d by a status update", sm.GetGeneration(), am.GetGeneration()), After: submitted}
+		// The generation clause is not limited to the main resource ("The generation increases by one exactly when the spec or
+		// the annotations change, and stays the same otherwise"), and the first sentence lets a status update change annotations
+		// (it only protects spec and labels). The stored spec cannot change on this path (just checked), so: if what is STORED
+		// afterwards has other annotations than before, the generation must be +1; if the annotations stored are the same
+		// (the client sent none other, or the API put the stored ones back), it must stay. nil vs empty: either.
+		switch annRel, g0, g1 := relation(sm.GetAnnotations(), am.GetAnnotations()), sm.GetGeneration(), am.GetGeneration(); {
+		case annRel == "same" && g1 != g0:
+			return outcome{Class: "generation-changed", Detail: fmt.Sprintf("generation %d -> %d by a status update that changed neither spec nor annotations", g0, g1), After: submitted}
+		case annRel == "differs" && g1 != g0+1:
+			return outcome{Class: "generation-not-bumped-on-annotations-change", Detail: fmt.Sprintf("a status update stored other annotations (%v -> %v) and the generation went %d -> %d", sm.GetAnnotations(), am.GetAnnotations(), g0, g1), After: submitted}
+		case annRel == "ambiguous" && g1 != g0 && g1 != g0+1:
+			return outcome{Class: "generation-neither-kept-nor-plus-one", Detail: fmt.Sprintf("generation %d -> %d by a status update", g0, g1), After: submitted}
 		}
 	}
 	return out
@@ -784,18 +797,19 @@ func keySpecific(k *servedKind, kg *kindGen, op opKind, stored runtime.Object, e
 		return ""
 	}
 	const neutral = "verif.example.com/neutral"
-	rename := func(o runtime.Object) {
-		m := copyMap(acc(o).GetAnnotations())
-		if v, ok := m[diff[0]]; ok {
-			delete(m, diff[0])
-			m[neutral] = v
+	renamed := func(m map[string]string) map[string]string {
+		out := copyMap(m)
+		if v, ok := out[diff[0]]; ok {
+			delete(out, diff[0])
+			out[neutral] = v
 		}
-		acc(o).SetAnnotations(m)
+		return out
 	}
 	st2 := stored.DeepCopyObject()
-	rename(st2)
-	renamed := append(append([]edit(nil), edits...), edit{"rename", "annotations", rename})
-	if o := run(k, kg, op, st2, renamed); o.Class != class && !o.Refused {
+	acc(st2).SetAnnotations(renamed(sa))
+	want := renamed(aa) // the submitted annotations with the key renamed, whatever kind of edit (add, change, removal) produced them
+	final := edit{"annotations := submitted annotations with the key renamed", "annotations", func(o runtime.Object) { acc(o).SetAnnotations(copyMap(want)) }}
+	if o := run(k, kg, op, st2, append(append([]edit(nil), edits...), final)); o.Class != class && !o.Refused {
 		return diff[0]
 	}
 	return ""
@@ -850,7 +864,7 @@ func TestCheck(t *testing.T) {
 			"exercised with RateLimitCondition objects (rich spec and status) as a probe kind. The no-difference pair and every single-edit pair are always included (systematic part), then random subsets. " +
 			"Non-trivial = every case (each is a distinct (operation, stored, edits) triple by hash). A violating pair is shrunk to the minimal set of edits that still violates; the signature names the differing parts.")
 		r.Assume("a nil list/map and an empty one are the same stored object (every such field is omitempty), so for pairs that differ only that way both 'generation kept' and 'generation+1' are accepted")
-		r.Assume("status updates that also change annotations are not judged for the generation (statement silent); counted as status_update_with_annotation_change")
+		r.Assume("a status update that stores other annotations is judged by the generation clause like any other change of the annotations (counted: status_update_with_annotation_change)")
 		r.Assume("the probe kind is only used while the registered strategy is the kind-generic registry.DefaultRESTStrategy")
 		kinds, err := servedKinds()
 		if err != nil {
